@@ -19,8 +19,7 @@ GInit == arr = <<>> /\ doc = [r \in Roots |-> U]
 GNext == Len(arr) < MaxRecs /\ UNCHANGED doc /\ \E o \in Others : \E p \in 1..(Len(o) + 1) : \E gi \in 1..Len(GV) : arr' = Append(arr, Rec(o, p, gi))
 GSpec == GInit /\ [][GNext]_<<arr, doc>>
 
-Agree == arr = <<>> \/
-         LET r == ImplGroupBy(arr, G, Variant) IN r.ok /\ r.groups = GroupBy(AbsArray(arr), G)
+Agree == LET r == ImplGroupBy(arr, G, Variant) IN r.ok /\ r.groups = GroupBy(AbsArray(arr), G)          \* (also for the empty array)
 \* the specification's own properties hold on every generated array
 Partition == arr = <<>> \/ (Groupable(AbsArray(arr), G) /\ GroupPartition(AbsArray(arr), G))
 =============================================================================
